@@ -553,6 +553,101 @@ theorem sign_block_offsets (dim : Nat) (intfs : List Intf)
       flatMap_getElem? (signOf dim) intfs k j hk (by rw [signOf_length dim _ hkc]; exact hj)]
     exact signOf_getElem? dim _ hkc j hj
 
+/-! ### hypotheses discharged from the code that establishes them; argument checks of the entry points -/
+
+/-- `np.where(tags["domain_boundary_faces"])[0]` is strictly increasing (hence duplicate free) and
+    below `num_faces = len(mask)`: the hypothesis `hb` of `boundary_projection_is_restriction` holds for
+    every grid whose boundary faces are read from its tag mask, so for such grids it disappears. -/
+theorem boundary_tags_satisfy_hypothesis (cells gdim : Nat) (mask : List Bool) :
+    (G.ofTags cells gdim mask).bfaces.Pairwise (· < ·) ∧ (G.ofTags cells gdim mask).bfaces.Nodup ∧
+      ∀ b ∈ (G.ofTags cells gdim mask).bfaces, b < (G.ofTags cells gdim mask).faces := by
+  obtain ⟨hp, hr⟩ := whereTrue_props 0 mask
+  refine ⟨hp, ?_, fun b hb => by have := hr b hb; simpa [G.ofTags] using this.2⟩
+  exact hp.imp (fun h => Nat.ne_of_lt h)
+
+/-- boundary projection for grid lists read from real grids (tag masks): no hypothesis on the boundary
+    faces is left — only `0 < dim` and well-formed sizes. -/
+theorem boundary_projection_from_tags (specs : List (Nat × Nat × List Bool)) (dim : Nat) (hd : 0 < dim)
+    (hwf : ∀ g ∈ specs.map (fun x => G.ofTags x.1 x.2.1 x.2.2), g.wf) :
+    ∃ idx, boundaryProjection (specs.map (fun x => G.ofTags x.1 x.2.1 x.2.2)) dim =
+        .ok (restrictMat (sumMap G.faces (specs.map (fun x => G.ofTags x.1 x.2.1 x.2.2)) * dim) idx) ∧
+      idx.Nodup ∧
+      ∀ w : List Rat, w.length = idx.length →
+        (restrictMat (sumMap G.faces (specs.map (fun x => G.ofTags x.1 x.2.1 x.2.2)) * dim) idx).apply
+          ((prolongMat (sumMap G.faces (specs.map (fun x => G.ofTags x.1 x.2.1 x.2.2)) * dim) idx).apply w) = w := by
+  have hb : ∀ g ∈ specs.map (fun x => G.ofTags x.1 x.2.1 x.2.2),
+      g.bfaces.Nodup ∧ ∀ b ∈ g.bfaces, b < g.faces := by
+    intro g hg
+    obtain ⟨x, _, rfl⟩ := List.mem_map.mp hg
+    exact (boundary_tags_satisfy_hypothesis x.1 x.2.1 x.2.2).2
+  obtain ⟨idx, h1, _, h3, _, h5⟩ := boundary_projection_is_restriction _ dim hd hwf hb
+  exact ⟨idx, h1, h3, h5⟩
+
+/-- Argument checks of the entry points: the constructor refuses (`ValueError`) exactly the lists with a
+    repeated subdomain; a restriction / prolongation called with a non-list raises `ValueError` before
+    anything else (even when the offset loop would raise), and with a list it is the projection proper,
+    whose error paths are characterised by `error_paths`. -/
+theorem entry_point_checks (ids : List Nat) (restrict useFaces : Bool) (gs : List G) (dim : Nat) (sel : List Nat) :
+    (ctorCheck ids = .error .valueError ↔ ¬ ids.Nodup) ∧ (ctorCheck ids = .ok () ↔ ids.Nodup) ∧
+      subCall restrict useFaces false gs dim sel = .error .valueError ∧
+      subCall restrict useFaces true gs dim sel =
+        (if restrict then restriction useFaces gs dim sel else prolongation useFaces gs dim sel) := by
+  refine ⟨?_, ?_, rfl, rfl⟩
+  · rw [← setLen_lt_iff]
+    unfold ctorCheck
+    split <;> simp [*]
+  · rw [← not_iff_not, ← setLen_lt_iff]
+    unfold ctorCheck
+    split <;> simp [*]
+
+/-- The Boolean hypothesis checks the driver evaluates on every case are exactly the hypotheses of the
+    theorems above (so a `true` answer makes the theorems applicable to that case). -/
+theorem driver_hypotheses_sound (gs : List G) (intfs : List Intf) :
+    (hypGrids gs = true → (∀ g ∈ gs, g.wf) ∧ ∀ g ∈ gs, g.bfaces.Nodup ∧ ∀ b ∈ g.bfaces, b < g.faces) ∧
+      (hypSign intfs = true → ∀ i ∈ intfs, i.sides = 1 ∨ i.left + i.right = i.cells) ∧
+      (∀ isPrimary i0 rest, intfs = i0 :: rest → hypMortar gs intfs false isPrimary = true →
+        (i0.codim = 1 ∨ i0.codim = 2) ∧ (∀ i ∈ intfs, i.codim = i0.codim) ∧
+        ∀ i ∈ intfs, ∀ p, (if isPrimary then i.prim else i.sec) = some p →
+          ∃ g, gs[p]? = some g ∧ ∀ t ∈ i.mat, t.1 < sizeOf (decide (i0.codim = 1) && isPrimary) g) ∧
+      (∀ isPrimary i0 rest, intfs = i0 :: rest → hypMortar gs intfs true isPrimary = true →
+        (i0.codim = 1 ∨ i0.codim = 2) ∧ (∀ i ∈ intfs, i.codim = i0.codim) ∧
+        ∀ i ∈ intfs, ∀ p, (if isPrimary then i.prim else i.sec) = some p →
+          ∃ g, gs[p]? = some g ∧ ∀ t ∈ i.mat, t.2.1 < sizeOf (decide (i0.codim = 1) && isPrimary) g) := by
+  refine ⟨?_, ?_, ?_, ?_⟩
+  · intro h
+    simp only [hypGrids, List.all_eq_true, Bool.and_eq_true, decide_eq_true_eq] at h
+    exact ⟨fun g hg => (h g hg).1.1, fun g hg => ⟨(h g hg).1.2, (h g hg).2⟩⟩
+  · intro h
+    simp only [hypSign, List.all_eq_true, Bool.or_eq_true, beq_iff_eq] at h
+    exact h
+  · intro isPrimary i0 rest he h
+    subst he
+    simp only [hypMortar, Bool.and_eq_true, Bool.or_eq_true, beq_iff_eq, List.all_eq_true] at h
+    obtain ⟨⟨hc, hu⟩, hf⟩ := h
+    refine ⟨hc, hu, ?_⟩
+    intro i hi p hp
+    have := hf i hi
+    rw [hp] at this
+    cases hg : gs[p]? with
+    | none => simp [hg] at this
+    | some g =>
+      simp only [hg, Bool.false_eq_true, if_false, List.all_eq_true, decide_eq_true_eq] at this
+      exact ⟨g, rfl, this⟩
+
+  · intro isPrimary i0 rest he h
+    subst he
+    simp only [hypMortar, Bool.and_eq_true, Bool.or_eq_true, beq_iff_eq, List.all_eq_true] at h
+    obtain ⟨⟨hc, hu⟩, hf⟩ := h
+    refine ⟨hc, hu, ?_⟩
+    intro i hi p hp
+    have := hf i hi
+    rw [hp] at this
+    cases hg : gs[p]? with
+    | none => simp [hg] at this
+    | some g =>
+      simp only [hg, if_true, List.all_eq_true, decide_eq_true_eq] at this
+      exact ⟨g, rfl, this⟩
+
 /-! ### non-vacuity: the hypotheses are satisfiable with non-trivial data -/
 
 /-- a 2-d grid (4 cells, 16 faces), two 1-d grids, a 0-d grid — listed in a non-sorted order -/
@@ -647,5 +742,13 @@ example : prolongation false exGs 2 [0, 7] = .error .keyError :=
 example := sign_block_offsets 2 exIntfs (by decide)
 example : signDiag 2 exIntfs = [-1, -1, -1, -1, 1, 1, 1, 1, -1, -1, 1, 1, -1, -1, -1, -1, -1, -1, 1, 1, 1, 1, 1, 1] := by
   decide
+
+example := boundary_tags_satisfy_hypothesis 4 2 [true, false, true, true, false]
+example : (G.ofTags 4 2 [true, false, true, true, false]).bfaces = [0, 2, 3] := by decide
+example := boundary_projection_from_tags [(4, 2, [true, false, true, true]), (1, 0, []), (2, 1, [true, false, true])] 2
+  (by decide) (by decide)
+example := entry_point_checks [3, 1, 3] true false exGs 2 [0]
+example : ctorCheck [3, 1, 3] = .error .valueError ∧ ctorCheck [3, 1, 2] = .ok () := by decide
+example : hypGrids exGs = true ∧ hypSign exIntfs = true ∧ hypMortar exGs exIntfs false true = true := by decide
 
 end PorepyVerif.C27
